@@ -29,7 +29,16 @@ def check_seq(prop, tier, seed):
     vlib.build_all(geos_for(tier))
     jobs = seq_jobs(tier, seed)
     gen_and_validate(res, jobs, [prop])
-    res.cov["rule"] = ("seeded random sequential histories (all orders, targeted gets, frees of held / partly held / "
+    sjobs, nseq, gstates = script_jobs(tier, seed)
+    try:
+        gen_and_validate(res, sjobs, [prop], par=12)
+    finally:
+        cleanup_scripts(sjobs)
+    res.cov["generated_sequences"] = nseq
+    res.cov["generator_states"] = gstates
+    res.cov["rule"] = ("(a) bounded-exhaustive: TLC enumerates EVERY sequence of %d letters of each theme alphabet of "
+                       "spec/Gen.tla (Orders, Targeted, Classy, Rows, Offline; %d sequences), each run on rotating "
+                       "configurations; (b) " % (3 if tier == "quick" else 4, nseq)) + ("seeded random sequential histories (all orders, targeted gets, frees of held / partly held / "
                        "never allocated blocks, drains, tree changes, invalid arguments, rebuilds) over rotating frame "
                        "counts, classings and geometries %s; every call's result and post-call observation is "
                        "validated by TLC against spec/TraceAbs.tla with property %s selected; distinct = distinct "
@@ -444,6 +453,7 @@ GEN_THEMES = {
     "Classy": [({"tf": 3, "hf": 0, "plus": 0}, "free", "zeroed", 1), ({"tf": 3, "hf": 0, "plus": 0}, "free", "zeroslot0", 1),
                ({"tf": 3, "hf": 0, "plus": 0}, "free", "custom", 1), ({"tf": 2, "hf": 0, "plus": 0}, "free", "movable", 1),
                ({"tf": 2, "hf": 0, "plus": 0}, "free", "zeroslot", 1)],
+    "Rows": [({"tf": 1, "hf": 0, "plus": 0}, "free", "simple", 1), ({"tf": 1, "hf": 1, "plus": 0}, "free", "movable", 1)],
     "Offline": [({"tf": 3, "hf": 0, "plus": 0}, "free", "simple", 1), ({"tf": 2, "hf": 1, "plus": 0}, "free", "zeroed", 1),
                 ({"tf": 2, "hf": 0, "plus": 0}, "alloc", "simple", 1)],
 }
